@@ -36,6 +36,10 @@ pub struct SchedCase {
 	pub switch_prob: f64,
 	/// the linked resource is a sound on the main track (volume linked) instead of a track effect
 	pub sound: bool,
+	/// instead: an LFO that the audio thread already owns is linked (by a command) to a modulator
+	/// created just before the command; it may lag by a callback but must follow in the end
+	#[serde(default)]
+	pub late_chain: bool,
 }
 
 pub fn gen(rng: &mut Rng) -> SchedCase {
@@ -45,6 +49,7 @@ pub fn gen(rng: &mut Rng) -> SchedCase {
 		callbacks: rng.urange(2, 6),
 		switch_prob: *rng.pick(&[0.03, 0.1, 0.3, 0.6, 0.9]),
 		sound: rng.chance(0.4),
+		late_chain: rng.chance(0.3),
 	}
 }
 
@@ -91,7 +96,131 @@ impl EffectBuilder for LinkProbeBuilder {
 	}
 }
 
+/// An LFO (amplitude 0: its value is its offset) owned by the audio thread is told, by a command,
+/// to take its offset from a tweener created just before. The command may be read in a callback
+/// that has not picked the tweener up yet - the link then does not resolve for that callback -
+/// but "not there yet" is not "gone": a few callbacks later the LFO reads the tweener's value.
+fn run_late_chain(case: &SchedCase) -> CaseResult {
+	use kira::modulator::lfo::LfoBuilder;
+	let mut res = CaseResult::default();
+	let mut beh = Hasher64::new();
+	let sim = Sim::new(case.seed);
+	sim.set_random_params(case.switch_prob, 0.1, 60_000);
+	let manager = monitor::catch(|| {
+		AudioManager::<SimBackend>::new(AudioManagerSettings {
+			internal_buffer_size: 8,
+			backend_settings: SimBackendSettings { sample_rate: 8000 },
+			..Default::default()
+		})
+		.unwrap()
+	});
+	let Ok(mut manager) = manager else {
+		sim.shutdown();
+		return res;
+	};
+	let device = manager.backend_mut().device.clone();
+	let mut out = Vec::new();
+	let lfo = manager.add_modulator(LfoBuilder::new().amplitude(0.0).offset(0.5)).unwrap();
+	let mut b = TrackBuilder::new();
+	let log = b.add_effect(LinkProbeBuilder(lfo.id()));
+	let track = manager.add_sub_track(b).unwrap();
+	for _ in 0..case.warm + 1 {
+		let _ = device.callback(8, 2, &mut out);
+	}
+	let keep: Arc<Mutex<Vec<Box<dyn std::any::Any + Send>>>> = Arc::new(Mutex::new(vec![Box::new(track)]));
+	let manager = Arc::new(Mutex::new(Some(manager)));
+	let lfo = Arc::new(Mutex::new(lfo));
+	{
+		let (keep, manager, lfo) = (keep.clone(), manager.clone(), lfo.clone());
+		sim.spawn_task(
+			"gameplay",
+			Role::Gameplay,
+			Box::new(move || {
+				let mut g = manager.lock().unwrap();
+				let m = g.as_mut().unwrap();
+				let tw = m.add_modulator(TweenerBuilder { initial_value: VALUE }).unwrap();
+				kira::verif::yield_point("gameplay.between_ops");
+				lfo.lock().unwrap().set_offset(
+					Value::FromModulator {
+						id: tw.id(),
+						mapping: Mapping {
+							input_range: (0.0, 1.0),
+							output_range: (0.0, 1.0),
+							easing: Easing::Linear,
+						},
+					},
+					kira::Tween {
+						duration: std::time::Duration::ZERO,
+						..Default::default()
+					},
+				);
+				keep.lock().unwrap().push(Box::new(tw));
+			}),
+		);
+	}
+	{
+		let (device, n) = (device.clone(), case.callbacks);
+		sim.spawn_task(
+			"audio",
+			Role::Audio,
+			Box::new(move || {
+				let mut out = Vec::new();
+				for _ in 0..n {
+					let rep = device.callback(8, 2, &mut out);
+					if let Some(p) = rep.panic {
+						panic!("{p}");
+					}
+					kira::verif::yield_point("audio.between_callbacks");
+				}
+			}),
+		);
+	}
+	sim.run_random();
+	res.count("context_switches", sim.switches());
+	if sim.capped() {
+		res.inconclusive = true;
+	}
+	for (role, name, msg) in sim.take_panics() {
+		res.fail(Violation::new("panic", format!("task-panic: {}", panic_signature(&msg)), format!("{role:?} task {name} panicked: {msg}")));
+	}
+	for _ in 0..4 {
+		let rep = device.callback(8, 2, &mut out);
+		if let Some(p) = rep.panic {
+			res.fail(Violation::new("panic", format!("audio-panic: {}", panic_signature(&p)), p));
+		}
+	}
+	if res.violation.is_none() && !res.inconclusive {
+		let l = log.lock().unwrap();
+		match l.last() {
+			Some((seen, _)) if seen.map(|v| (v - VALUE).abs() <= 1e-9).unwrap_or(false) => res.hit("late_chains_following"),
+			other => res.fail(Violation::new(
+				"linked-parameter",
+				"late-link-never-follows",
+				format!(
+					"an LFO (amplitude 0) was told to take its offset from a tweener (value {VALUE}) created just before the command; four undisturbed callbacks after the race its value is {:?} (last values seen: {:?})",
+					other.map(|o| o.0),
+					l.iter().rev().take(6).map(|o| o.0).collect::<Vec<_>>()
+				),
+			)),
+		}
+	}
+	beh.u64(sim.trace_hash());
+	res.nontrivial = true;
+	res.callbacks = (case.warm + 1 + case.callbacks + 4) as u64;
+	res.hit("type.sched_late_modulator_chain");
+	res.trace_hash = sim.trace_hash();
+	res.behaviour_sig = beh.finish();
+	drop(keep);
+	drop(lfo);
+	drop(manager);
+	sim.shutdown();
+	res
+}
+
 pub fn run(case: &SchedCase) -> CaseResult {
+	if case.late_chain {
+		return run_late_chain(case);
+	}
 	let mut res = CaseResult::default();
 	let mut beh = Hasher64::new();
 	let sim = Sim::new(case.seed);
